@@ -34,6 +34,9 @@ PropOf(e) ==
   CASE e.op \in {"chat", "invitenew", "invite", "reject", "join", "leave", "subject"} -> "C12"
     [] e.op \in {"connect", "kick", "banadd", "wait", "expire", "restart"} -> "C17"
     [] e.op = "login" /\ ~PwMatches(e) -> "C04"
+    [] e.op \in {"loginbegin", "loginend"} -> "C04"
+    [] e.op = "chatstorm" -> "C12"
+    [] e.op = "banstorm" -> "C17"
     [] e.op = "rawfail" -> "C04"
     [] OTHER -> "C13"
 
@@ -64,19 +67,22 @@ StepEv ==
             /\ seen' = seen \cup {<<e.run, "drift">>}
             /\ UNCHANGED vars
        ELSE /\ Apply(e)
-            /\ LET dupId == e.op = "login" /\ PwMatches(e) /\ \E d \in Live : conn[d].id = e.id
-                   okDeliv == IF e.op = "kick" THEN SameSet(out', e.deliv) ELSE SameBag(out', e.deliv)
+            /\ LET dupId == e.op \in {"login", "loginend"} /\ conn'[e.c].ph = "in" /\ \E d \in Live : conn[d].id = e.id
+                   vis == Observable(out')
+                   okDeliv == IF e.op = "kick" THEN SameSet(vis, e.deliv) ELSE SameBag(vis, e.deliv)
+                   okStorm == /\ (e.op = "chatstorm" => \A k \in DOMAIN e.counts : e.counts[k][3] = (IF e.counts[k][2] = "perm" THEN 1 ELSE 0))
+                              /\ (e.op = "banstorm" => e.loadOK /\ SeqToSet(e.refused) = SeqToSet(e.banned))
                    okBan == (e.op = "kick" /\ bans' # bans) => ((IF conn[e.target].addr \in DOMAIN bans' THEN bans'[conn[e.target].addr] ELSE "none") = e.bancls)
                    okClosed == SeqToSet(e.closed) = {c \in Conns : conn[c].ph # "closed" /\ conn'[c].ph = "closed"}
                    okState == e.op = "rawfail" => ~e.stateChanged
                    okChurn == e.op = "churn" => Len(e.dup) = 0
                    unsettled == "unsettled" \in DOMAIN e
-                   bad == ~okDeliv \/ dupId \/ ~okClosed \/ ~okBan \/ ~okState \/ ~okChurn
+                   bad == ~okDeliv \/ dupId \/ ~okClosed \/ ~okBan \/ ~okState \/ ~okChurn \/ ~okStorm
                IN /\ (unsettled /\ ~dupId => Report("DRIFT", p, e, "a connection did not answer its keep-alive"))
                   /\ (bad /\ OnceOK(IF dupId THEN "C13" ELSE p, e) =>
                         Report("VIOL", IF dupId THEN "C13" ELSE p, e,
                                [expected |-> out', dupId |-> dupId, okDeliv |-> okDeliv, okClosed |-> okClosed,
-                                okBan |-> okBan, okState |-> okState, okChurn |-> okChurn,
+                                okBan |-> okBan, okState |-> okState, okChurn |-> okChurn, okStorm |-> okStorm,
                                 expClosed |-> {c \in Conns : conn[c].ph # "closed" /\ conn'[c].ph = "closed"}]))
                   /\ seen' = IF bad THEN seen \cup {<<e.run, IF dupId THEN "C13" ELSE p>>} ELSE seen
 
